@@ -489,3 +489,61 @@ Proof.
   intros H. apply (f_equal (fun o => match o with Some x => nlen (e_errstr x) | None => 0 end)) in H.
   vm_compute in H. discriminate.
 Qed.
+
+(* ---------- the object PutPlog returns; re-encoding ---------- *)
+Definition short_texts (e : event) : Prop := nlen (e_errstr e) <= 65535 /\ nlen (e_errname e) <= 65535.
+
+Lemma stored_returned e : no_actmod e -> short_texts e -> stored_form e = returned_form_with true e.
+Proof.
+  intros [H1 H2] [L1 L2]. unfold stored_form, returned_form_with. cbn [andb].
+  destruct (stored_valid e) eqn:SV; cbn [negb].
+  - rewrite (clear_id _ H1), (clear_id _ H2). destruct e; reflexivity.
+  - rewrite (cut_str_short _ L1), (cut_str_short _ L2). reflexivity.
+Qed.
+
+(* reading back gives the object PutPlog returned, whatever the builder left in an invalid event *)
+Theorem returned_object_reads_back_proved clears s e :
+  clears = true -> wf_event s e -> no_actmod e -> short_texts e ->
+  decode s (enc_event e) = Some (returned_form_with clears e).
+Proof.
+  intros -> W A T. rewrite (decode_encode_proved s e W). f_equal. apply stored_returned; assumption.
+Qed.
+
+(* with the original name kept, encoding an event again is encoding it *)
+Theorem reencode_is_encode_proved orig e : orig = true -> reencode_with orig e = enc_event e.
+Proof.
+  intros ->. unfold reencode_with, reenc_name_with. destruct (stored_valid e); [reflexivity|]. destruct e; reflexivity.
+Qed.
+
+Lemma cut_str_idem s : cut_str (cut_str s) = cut_str s.
+Proof. apply cut_str_short. pose proof (cut_str_len s). lia. Qed.
+
+Lemma enc_clear (cs : list cud) : flat_map enc_cud (map clear_cud cs) = flat_map enc_cud cs.
+Proof. induction cs as [|c t IH]; cbn [map flat_map]; [reflexivity|]. rewrite IH. reflexivity. Qed.
+
+(* the stored form encodes to the same bytes *)
+Lemma enc_stored_form e : enc_event (stored_form e) = enc_event e.
+Proof.
+  unfold stored_form. destruct (stored_valid e) eqn:SV.
+  - unfold enc_event, stored_valid in *. cbn [e_qid e_part e_poffs e_ws e_woffs e_reg e_sync e_dev e_syncat e_valid e_errstr e_errname e_errbytes e_arg e_unl e_creates e_updates].
+    rewrite SV. unfold nlen. rewrite !map_length, !enc_clear. reflexivity.
+  - unfold enc_event, stored_valid in *. cbn [e_qid e_part e_poffs e_ws e_woffs e_reg e_sync e_dev e_syncat e_valid e_errstr e_errname e_errbytes e_arg e_unl e_creates e_updates].
+    rewrite SV. unfold enc_str. rewrite !cut_str_idem. cbn [root null_obj r_qid null_row N.eqb]. reflexivity.
+Qed.
+
+(* ... hence a decoded event re-encodes to the bytes it was decoded from *)
+Theorem reencode_decoded_proved orig s e :
+  orig = true -> wf_event s e ->
+  exists d, decode s (enc_event e) = Some d /\ reencode_with orig d = enc_event e.
+Proof.
+  intros O W. exists (stored_form e). split; [apply decode_encode_proved; exact W|].
+  rewrite (reencode_is_encode_proved orig _ O). apply enc_stored_form.
+Qed.
+
+(* the variant that wrote the event's own name (before 796fe6f32): the original name is lost *)
+Theorem reencode_own_name_refuted_proved :
+  exists e, wf_event sch_any e /\ reencode_with false (stored_form e) <> enc_event (stored_form e).
+Proof.
+  exists (mkEvent 1 1 5 7 9 1000 false 0 0 false [120] [116; 46; 99] [] null_obj null_obj [] []).
+  split; [apply error_witness_wf|]. vm_compute. congruence.
+Qed.
